@@ -21,7 +21,7 @@ Reading of the property text fixed here (and checked against the Rust and MPD's 
   31 names the crate knows (canonical spelling = MPD's protocol name), verbatim otherwise; the values
   of a tag are listed in line order; the tag map is presented sorted by protocol name (bytewise);
 * the numeric reading of a duration text is `Mpd.F64.decodeDuration` (Rust's `f64::from_str` followed
-  by `Duration::try_from_secs_f64`, emulated exactly); how close that is to the decimal on the wire
+  by `Duration::try_from_secs_f64`, emulated exactly); how close that is to the decimalL on the wire
   is the business of C15/C16, not of this property.
 -/
 namespace Spec
@@ -103,7 +103,7 @@ def firstOf (k : Bytes) (lines : List (Bytes × Bytes)) : Option Bytes :=
   ((lines.filter (·.1 == k)).head?).map (·.2)
 
 /-- MPD prints unsigned numbers as plain decimals -/
-def decimal (v : Bytes) : Option Nat :=
+def decimalL (v : Bytes) : Option Nat :=
   if !v.isEmpty && v.all isDigit then some (digitsVal v) else none
 
 /-- numeric reading of a seconds text -/
@@ -156,9 +156,9 @@ def tagsOf (lines : List (Bytes × Bytes)) : List (Bytes × List Bytes) := tagsO
 
 /-- the song denoted by a `file` entry: a function of the entry's own lines -/
 def songOf (url : Bytes) (lines : List (Bytes × Bytes)) : AbsQSong where
-  pos := ((lastOf (str "Pos") lines).bind decimal).getD 0
-  id := ((lastOf (str "Id") lines).bind decimal).getD 0
-  prio := ((lastOf (str "Prio") lines).bind decimal).getD 0
+  pos := ((lastOf (str "Pos") lines).bind decimalL).getD 0
+  id := ((lastOf (str "Id") lines).bind decimalL).getD 0
+  prio := ((lastOf (str "Prio") lines).bind decimalL).getD 0
   range := (lastOf (str "Range") lines).bind rangeOf
   song := {
     url := url
@@ -197,8 +197,8 @@ def wfLine (ts : Bytes → Bool) (kv : Bytes × Bytes) : Bool :=
   wfFieldName kv.1 && !entryKeys.contains kv.1 &&
   (if kv.1 = str "duration" ∨ kv.1 = str "Time" then (seconds kv.2).isSome
    else if kv.1 = str "Range" then (rangeOf kv.2).isSome
-   else if kv.1 = str "Prio" then (decimal kv.2).any (· ≤ 255)
-   else if kv.1 = str "Pos" ∨ kv.1 = str "Id" then (decimal kv.2).any (· ≤ U64MAX)
+   else if kv.1 = str "Prio" then (decimalL kv.2).any (· ≤ 255)
+   else if kv.1 = str "Pos" ∨ kv.1 = str "Id" then (decimalL kv.2).any (· ≤ U64MAX)
    else if kv.1 = str "Last-Modified" then ts kv.2
    else true)
 
